@@ -294,7 +294,7 @@ def run_param_case(case):
         if r:
             cls = type(g).__name__
             kind = "declared" if any(k == name for k, _ in decl()[cls]) else "nested-only"
-            return (f"param:set:{cls}.{name}({kind},{spec['t']})", f"{'.'.join(path) or 'root'}.{name} = {value!r:.60}: {r}"), None
+            return (f"param:set:{kind} name:{'group' if spec['t'] == 'node' else 'scalar'} value", f"{cls}: {'.'.join(path) or 'root'}.{name} = {value!r:.60}: {r}"), None
     return None, coq_pcase(case, p)
 
 
@@ -354,7 +354,13 @@ def horizon_times(sc):
     return sorted(ts)
 
 
-EXACT_OFF = [(["dynamic_obstacle"], "draw_signals"), (["dynamic_obstacle", "trajectory"], "draw_trajectory")]
+# the setting of the statement, assigned explicitly (no default is relied on)
+EXACT_SET = [(["dynamic_obstacle"], "draw_shape", True), (["dynamic_obstacle"], "draw_icon", False),
+             (["dynamic_obstacle"], "draw_signals", False), (["dynamic_obstacle", "trajectory"], "draw_trajectory", False),
+             (["dynamic_obstacle", "occupancy"], "draw_occupancies", False),
+             (["dynamic_obstacle", "history"], "draw_history", False), (["dynamic_obstacle"], "draw_direction", False),
+             (["dynamic_obstacle"], "draw_initial_state", False), (["phantom_obstacle"], "draw_shape", True),
+             (["phantom_obstacle", "occupancy"], "draw_occupancies", False)]
 
 
 def gen_render_case(rng, exact=None):
@@ -377,8 +383,8 @@ def gen_render_case(rng, exact=None):
             ops.append([[g], rng.choice(["time_begin", "time_end"]), {"t": "int", "v": tb + rng.choice([-1, 1, 2])}])
     table = group_table()
     if exact:
-        for path, name in EXACT_OFF:
-            ops.append([path, name, {"t": "bool", "v": False}])
+        for path, name, v in EXACT_SET:
+            ops.append([path, name, {"t": "bool", "v": v}])
         # things that do not touch the obstacle shapes
         for _ in range(rng.randint(0, 3)):
             o = rand_op(rng, {q: c for q, c in table.items() if q[:1] in (("lanelet_network",), ("planning_problem_set",),
@@ -399,6 +405,14 @@ def gen_render_case(rng, exact=None):
             o = rand_op(rng, table, True, False, pools)
             if o[1] not in ("time_begin", "time_end"):
                 ops.append(o)
+        if rng.random() < 0.5:  # the decorations that place something at a state
+            for path, k in ((["dynamic_obstacle"], "draw_icon"), (["dynamic_obstacle"], "show_label"),
+                            (["dynamic_obstacle"], "draw_initial_state"), (["dynamic_obstacle", "state"], "draw_arrow"),
+                            (["dynamic_obstacle"], "draw_direction"), (["dynamic_obstacle", "history"], "draw_history"),
+                            (["dynamic_obstacle", "occupancy"], "draw_occupancies"),
+                            (["phantom_obstacle", "occupancy"], "draw_occupancies")):
+                if rng.random() < 0.6:
+                    ops.append([path, k, {"t": "bool", "v": True}])
         if rng.random() < 0.25:  # a whole group assigned, last
             o = rand_op(rng, table, True, True, pools)
             if o[2]["t"] == "node":
